@@ -200,6 +200,62 @@ func (x *extractor) genExprs() {
 			}
 		}
 	}
+	// message-of-death handling in FSM.applyProto (package main)
+	if mainp := x.pkg(""); mainp != nil {
+		if fd := findFunc(mainp, "FSM", "applyProto"); fd != nil {
+			var assign, store, fatal token.Pos
+			ast.Inspect(fd.Body, func(n ast.Node) bool {
+				switch v := n.(type) {
+				case *ast.AssignStmt:
+					if len(v.Lhs) == 1 && exprString(mainp.Fset, v.Lhs[0]) == "msg.Type" && assign == token.NoPos {
+						assign = v.Pos()
+						put("death.assign", stmtString(mainp.Fset, v))
+					}
+					if len(v.Lhs) == 1 && exprString(mainp.Fset, v.Lhs[0]) == "l.Data" {
+						put("death.rewrite", stmtString(mainp.Fset, v))
+					}
+				case *ast.CallExpr:
+					f := exprString(mainp.Fset, v.Fun)
+					if strings.HasSuffix(f, "StoreLogProto") && store == token.NoPos {
+						store = v.Pos()
+						put("death.store", exprString(mainp.Fset, v))
+					}
+					if f == "glog.Fatalf" && len(v.Args) == 2 && exprString(mainp.Fset, v.Args[1]) == "r" {
+						fatal = v.Pos()
+					}
+				}
+				return true
+			})
+			order := "false"
+			if assign != token.NoPos && store != token.NoPos && fatal != token.NoPos && assign < store && store < fatal {
+				order = "true"
+			}
+			put("death.order.mark-store-exit", order)
+			if is := findIf(mainp, fd, "MessageOfDeath"); is != nil {
+				put("death.skipguard", exprString(mainp.Fset, is.Cond)+" => "+bodyString(mainp, is))
+			}
+		}
+		if fd := findFunc(mainp, "FSM", "applyRobustMessage"); fd != nil {
+			// first statement of the MessageOfDeath case
+			ast.Inspect(fd.Body, func(n ast.Node) bool {
+				cc, ok := n.(*ast.CaseClause)
+				if !ok || len(cc.List) != 1 {
+					return true
+				}
+				switch exprString(mainp.Fset, cc.List[0]) {
+				case "robust.MessageOfDeath":
+					if len(cc.Body) > 0 {
+						put("death.case.first", stmtString(mainp.Fset, cc.Body[0]))
+					}
+				case "robust.IRCFromClient":
+					if len(cc.Body) > 0 {
+						put("client.case.first", stmtString(mainp.Fset, cc.Body[0])[:80])
+					}
+				}
+				return true
+			})
+		}
+	}
 	var keys []string
 	for k := range facts {
 		keys = append(keys, k)
